@@ -4,3 +4,4 @@ open IrVerif.Scope
 #print axioms C03_pure
 #print axioms C03_roundtrip
 #print axioms C03_roundtrip_reloadable
+#print axioms C03_roundtrip_model
